@@ -281,6 +281,7 @@ def lex_family(prop, tier, seed, *, relevant, select, name, cfgs, N, starts, bud
         for k in ('queries', 'cached', 'solver_s', 'paths', 'steps'):
             tot[k] += r['stats'][k]
         # largest number of MIR blocks one next() call executed, relative to its budget (6000 + 150 * N)
+        tot['cache_mismatch'] = tot.get('cache_mismatch', 0) + r['stats'].get('cache_mismatch', 0)
         mcs = r['stats'].get('max_call_steps', 0)
         tot['max_call_steps'] = max(tot.get('max_call_steps', 0), mcs)
         tot['max_call_fraction'] = max(tot.get('max_call_fraction', 0.0), round(mcs / (6000 + 150 * r['N']), 3))
@@ -394,7 +395,8 @@ def lex_family(prop, tier, seed, *, relevant, select, name, cfgs, N, starts, bud
                    'leaves': v['leaves'], 'cfgs': sorted(v['cfgs']), 'wall_s': round(v['wall'], 1)} for k, v in per_def.items()},
                    'long_runs': [list(x) for x in long_runs], 'whole_stream_runs': {'definitions': sorted(set(stream_defs) & set(per_def)), 'N': stream_N} if stream_defs else None,
                    'outside': 'inputs longer than N bytes; definitions outside the corpus; rustc/LLVM lowering after MIR'},
-        'queries_discharged': tot['queries'], 'queries_reused_on_replay': tot['cached'], 'solver_s': round(tot['solver_s'], 1),
+        'queries_discharged': tot['queries'], 'queries_reused_on_replay': tot['cached'],
+        'replay_cache_mismatches': tot.get('cache_mismatch', 0), 'solver_s': round(tot['solver_s'], 1),
         'paths': tot['paths'], 'mir_blocks_executed': tot['steps'], 'max_blocks_in_one_next': tot.get('max_call_steps', 0),
         'max_fraction_of_call_step_budget': tot.get('max_call_fraction', 0.0),
         'functions_encoded': sorted(fns)[:400], 'functions_encoded_count': len(fns), 'stubs': sorted(builtins),
@@ -604,10 +606,31 @@ def kani_cross_check(prop, ev, harnesses):
 
 def c20(tier, seed):
     tp = tier_params(tier)
-    return lex_family('C20', tier, seed, relevant={'C20'}, select=sel_for(tier, 'backtrack'), name='lex',
-                      long_defs=(('long_loop', 72), ('neg_loop_bytes', 20), ('long_ident', 24), ('long_float', 20), ('long_skip', 24)) if tier == 'quick' else
-                      (('long_loop', 72), ('long_loop', 136), ('kw_ident', 17), ('neg_loop_bytes', 28), ('long_ident', 28), ('long_float', 20), ('long_skip', 28)),
-                      **tp)
+    # partial lexers read the source through the same generated code plus their own guards: the read discipline is
+    # checked in that mode too, on the looping definitions
+    sel = sel_for(tier, 'backtrack')
+    hook_p = {}
+    tpp = dict(tp)
+    if tier == 'quick':
+        tpp['starts'] = (0, 1)
+    rcp = lex_family('C20', tier, seed, relevant={'C20'}, select=lambda ds: [d for d in sel(ds) if 'loop' in d.tags], name='lexp',
+                     partial=True, long_defs=(('long_ident', 20), ('long_float', 20), ('long_loop', 24)), evidence_hook=hook_p, **tpp)
+    hook = {}
+    rc = lex_family('C20', tier, seed, relevant={'C20'}, select=sel, name='lex',
+                    long_defs=(('long_loop', 72), ('neg_loop_bytes', 20), ('long_ident', 24), ('long_float', 20), ('long_skip', 24)) if tier == 'quick' else
+                    (('long_loop', 72), ('long_loop', 136), ('kw_ident', 17), ('neg_loop_bytes', 28), ('long_ident', 28), ('long_float', 20), ('long_skip', 28)),
+                    evidence_hook=hook, **tp)
+    ev = hook['ev']
+    cp = hook_p.get('coverage', {})
+    ev.coverage['partial_mode'] = {k: cp.get(k) for k in ('programs', 'definitions', 'configurations', 'evaluations', 'leaf_kinds',
+                                                            'queries_discharged', 'solver_s', 'paths', 'failures_confirmed_natively',
+                                                            'models_not_reproduced')}
+    ev.coverage['evaluations'] = (ev.coverage.get('evaluations') or 0) + (cp.get('evaluations') or 0)
+    ev.violations += hook_p['ev'].violations
+    ev.write()
+    if ev.violations > 0:
+        return 1
+    return max(rc, rcp)
 
 
 from .runtime_checks import c15  # noqa: E402
